@@ -47,3 +47,64 @@ PROPS['C01'] = dict(
     trusted_base=['premise #name_injective of the subset construction: to_single_state is assumed injective on the subsets that occur (false in general: known finding F-C01-merged-names)'],
     assumptions=['DFA.minimize / EpsilonNFA.minimize: bounded only'],
 )
+
+PROPS['C02'] = dict(
+    level='exploration',
+    technique='bounded run-time contract checking with an exact product-reachability equivalence oracle (the deductive verifier cannot reach Hopcroft refinement over numpy arrays / linked lists); delegation wrappers are trivial',
+    level_text=('Bounded stand-in only: is_equivalent_to/==/minimize are evaluated on all ordered pairs of partial DFAs with <=2 states over one symbol and on a seeded sample of '
+                'DFA/eps-NFA pairs (incl. independently built equivalent partners with and without an explicit sink, different alphabets) against an exact equivalence oracle, '
+                'a pairwise-distinguishability oracle and an isomorphism walk. Not a proof: Hopcroft partition refinement (numpy object arrays, intrusive doubly linked lists) is outside the VC generator.'),
+    level_note='Trusted: the reference semantics in specs/fa.py (determinisation + product reachability), the extraction of result automata through the public API. Nothing is claimed beyond the enumerated scope.',
+    pyvc=[], lean=[], bounded='bounded.c02',
+    bounded_only=['DeterministicFiniteAutomaton.is_equivalent_to', '_is_equivalent_to_minimal', 'minimize', '_get_partition', 'Partition', 'HopcroftProcessingList', 'DoublyLinkedList', 'FiniteAutomaton.is_equivalent_to', '__eq__'],
+    explanation='bounded only (see level_text)',
+    rule=('case = ordered pair of automata with the classes they are built as; non-trivial = (equal languages, different automata, non-empty) or (different non-empty languages); distinct = canonical JSON of the pair'),
+    exhaustive_part=True,
+    scope={'quick': 'all ordered pairs of partial DFAs n<=2,k=1 + 3000 random pairs (<=3 states, <=3 symbols), 2 hash seeds', 'thorough': '+ n=2,k=2 partial DFAs x 40 partners, 30000 random pairs, 8 hash seeds'},
+)
+
+PROPS['C03'] = dict(
+    level='other',
+    technique='contract-based deductive verification (pyvc + z3, Lean bridge lemmas) for intersection, complement, difference, reverse; bounded run-time contract checking for union/concatenate/kleene_star (built through regex text)',
+    level_text=('Deductive for EpsilonNFA.{get_intersection, get_complement, get_difference, reverse} (structure proved for all operands and iteration orders; Lean lemmas prod/compl/rev '
+                'give the language statement). union, concatenate, kleene_star go through to_regex/Regex text and are only bounded-checked against reference constructions with an exact '
+                'equivalence oracle. Mixed, hence level other.'),
+    level_note='Trusted: VC generator, z3, Lean+Mathlib, by-inspection match of postconditions and Lean structures, premises #pair_injective and trash-state freshness (see known findings), value/ownership assumptions; bounded part: reference semantics.',
+    pyvc=fa('ENFA.get_intersection', 'ENFA.get_complement', 'ENFA.get_difference', 'ENFA.reverse', 'ENFA.copy'),
+    lean=['bridge/prod.lean', 'bridge/compl.lean', 'bridge/rev.lean'],
+    bounded='bounded.c03', replayer='bounded.replay_fa',
+    bounded_only=['Regexable.union', 'Regexable.concatenate', 'Regexable.kleene_star', 'EpsilonNFA.to_regex and helpers'],
+    explanation='mixed: four operations proved deductively + Lean bridge; the three rational operations bounded only',
+    rule='case = one automaton (unary ops) or an ordered pair (binary ops, incl. the same object twice, colliding state names, different alphabets); non-trivial = operands with non-empty language and a nondeterministic or epsilon step',
+    exhaustive_part=True,
+    scope={'quick': 'unary: all eps-NFA n<=2,k=1 + 1200 random; binary: 1500 pairs; words <=3/4; 2 hash seeds', 'thorough': 'unary + n=2,k=2 exhaustive; 20000 pairs; 8 hash seeds'},
+)
+
+PROPS['C04'] = dict(
+    level='other',
+    technique='contract-based deductive verification (pyvc + z3, Lean bridge) for is_empty and is_deterministic; bounded run-time contract checking for is_acyclic and get_accepted_words',
+    level_text=('Deductive for EpsilonNFA.is_empty (worklist reachability, all automata, all orders; Lean lemma empty gives "no word accepted") and EpsilonNFA.is_deterministic '
+                '(postcondition is the property wording). is_acyclic and get_accepted_words (order-dependent pruning, generator, termination) are bounded only. Mixed => other.'),
+    level_note='Trusted: VC generator, z3, Lean+Mathlib, closure-induction schema instances, value assumptions; termination of get_accepted_words on finite languages is only observed on the bounded scope with a step budget.',
+    pyvc=fa('ENFA.is_empty', 'ENFA.is_deterministic', 'ENFA.eclose'),
+    lean=['bridge/empty.lean'],
+    bounded='bounded.c04', replayer='bounded.replay_fa',
+    bounded_only=['FiniteAutomaton.is_acyclic', 'FiniteAutomaton.get_accepted_words', '_get_states_leading_to_final', 'NFA.is_deterministic', 'DFA.is_deterministic'],
+    explanation='mixed: is_empty and is_deterministic proved; acyclicity and enumeration bounded',
+    rule='case = one automaton built as every legal class; non-trivial = non-empty language with a nondeterministic or epsilon step',
+    exhaustive_part=True,
+    scope={'quick': 'all eps-NFA n<=2,k=1 + 2000 random; bounds n=0..3 and unbounded on finite languages; 2 hash seeds', 'thorough': '+ n=2,k=2 exhaustive, 20000 random, 8 hash seeds'},
+)
+
+PROPS['C06'] = dict(
+    level='exploration',
+    technique='bounded run-time contract checking with an exact equivalence oracle (state elimination builds regex text whose meaning is defined by the regex parser: outside the deductive verifier)',
+    level_text='Bounded stand-in only: to_regex() and the round trip to_regex().to_epsilon_nfa() compared with the source automaton by exact language equivalence on the enumerated scope, several hash seeds (elimination order follows set order).',
+    level_note='Trusted: specs/fa.py reference semantics and extraction through the public API; nothing beyond the scope.',
+    pyvc=[], lean=[], bounded='bounded.c06',
+    bounded_only=['EpsilonNFA.to_regex', '_remove_all_basic_states', '_remove_state', '_create_or_transitions', '_get_regex_simple', '_get_bi_transitions', 'get_temp', 'get_regex_sub'],
+    explanation='bounded only (see level_text)',
+    rule='case = one eps-NFA with plain-token symbols; non-trivial = non-empty language with a nondeterministic or epsilon step',
+    exhaustive_part=True,
+    scope={'quick': 'all eps-NFA n<=2,k=1 + 1500 random (<=4 states), 2 hash seeds', 'thorough': '+ n=2,k=2 exhaustive, 15000 random, 8 hash seeds'},
+)
